@@ -122,6 +122,18 @@ def handle (w : W) (op : String) (args : List Json) : W × Json :=
     | some n => match getReferable n ((jarr segs).map jchars) with
       | .error e => (w, errJson e)
       | .ok p => (w, Json.arr #["node", jnat u, pathJson (jpath start ++ p)])
+  | "getref1", [u, start, seg] =>        -- the bare-string argument form
+    match (root w (jnat u)).bind (fun r => sub r (jpath start)) with
+    | none => (w, errJson .noNode)
+    | some n => match getReferableArg n (.single (jchars seg)) with
+      | .error e => (w, errJson e)
+      | .ok p => (w, Json.arr #["node", jnat u, pathJson (jpath start ++ p)])
+  | "follow", [u, start, segs] =>        -- one call per segment, each with the bare-string form
+    match (root w (jnat u)).bind (fun r => sub r (jpath start)) with
+    | none => (w, errJson .noNode)
+    | some n => match followStepwise n ((jarr segs).map jchars) with
+      | .error e => (w, errJson e)
+      | .ok p => (w, Json.arr #["node", jnat u, pathJson (jpath start ++ p)])
   | "classes", [] =>
     (w, Json.arr (kinds.map (fun (n, k) => Json.arr #[n, keyTypeName (keyTypeOf k), clsName (refTypeOf k),
         Json.arr ((mro k).map (fun c => (clsName c : Json))).toArray, isNamespace k, isIdentifiable k])).toArray)
